@@ -28,3 +28,14 @@ def parser_unit():
                     ('char_traits.contracts', 'input.contracts', 'str.contracts', 'buffered.contracts',
                      'scanner.contracts', 'parser.contracts')],
     }
+
+
+def encoding_unit():
+    er = [(r'\bencoding_rs::', 'crate::encoding_rs::')]
+    return {
+        'name': 'encoding',
+        'mods': [ModSpec('encoding', 'saphyr/src/encoding.rs', 'encoding.rs', path_rewrites=er)],
+        'features': ['allocator_api'],
+        'prelude': [os.path.join(CONTRACTS, 'prelude_encoding.vrs')],
+        'sidecar': [os.path.join(CONTRACTS, 'encoding.contracts')],
+    }
